@@ -130,3 +130,236 @@ func ruleC05(c *Ctx) {
 	c.Floor("panicreach", 3)
 	c.Floor("guard", 5)
 }
+
+func init() { register("C03", ruleC03) }
+
+// hashedSinks: values that end up in hashed entry content inside f — arguments
+// of bc constructors and stores into fields of bc structs whose name does not
+// start with "Witness" (and is not Ordinal).
+func hashedSinks(f *ssa.Function) (sinks []ssa.Value, witness []ssa.Value) {
+	for _, b := range f.Blocks {
+		for _, in := range b.Instrs {
+			switch t := in.(type) {
+			case *ssa.Call:
+				if cal := staticCallee(t); cal != nil && cal.Pkg != nil && trimMod(cal.Pkg.Pkg.Path()) == "protocol/bc" && len(cal.Name()) > 3 && cal.Name()[:3] == "New" {
+					// the ordinal parameter of the constructors is not hashed
+					ps := cal.Signature.Params()
+					for i, a := range t.Call.Args {
+						if i < ps.Len() && ps.At(i).Name() == "ordinal" {
+							continue
+						}
+						sinks = append(sinks, a)
+					}
+				}
+			case *ssa.Store:
+				ty, fld, ok := fieldOf(t.Addr)
+				if !ok || len(ty) < 12 || ty[:12] != "protocol/bc." {
+					continue
+				}
+				if len(fld) >= 7 && fld[:7] == "Witness" {
+					witness = append(witness, t.Val)
+				} else if fld != "Ordinal" {
+					sinks = append(sinks, t.Val)
+				}
+			}
+		}
+	}
+	return
+}
+
+func ruleC03(c *Ctx) {
+	c.Explain("C03 (structural part): field coverage + field flow. For every entry type the set of struct fields its writeForHash hands to the hasher equals the struct's fields minus the Witness*/Ordinal/size/protobuf-internal ones, and no Witness* field is hashed; every bc constructor stores each parameter; in the Tx→entries mapping each consensus-relevant wire field (version, time range, spend commitment fields incl. source position and state data, issuance nonce/amount/definition/program via the asset id, coinbase arbitrary, output asset/amount/vm version/program/state data/vote key) flows into hashed entry content, input order through muxSources[i]/inputIDs[i] and output order through the position and the appended result ids, while witness arguments flow only into Witness* fields; the header mapping reads exactly version, height, previous hash, timestamp and merkle root, never the block witness or sup links; the merkle root is fed the transaction ids in slice order. Not decided: collision-freeness, and that distinct field values give distinct encodings inside the reflective writeForHash.")
+	// (a) field coverage of writeForHash
+	bcp := c.TPkg("protocol/bc")
+	entryTypes := []string{"TxHeader", "Mux", "Spend", "VetoInput", "Issuance", "Coinbase", "OriginalOutput", "VoteOutput", "Retirement", "BlockHeader"}
+	notHashed := func(typ, f string) bool {
+		if len(f) >= 7 && f[:7] == "Witness" {
+			return true
+		}
+		if len(f) >= 4 && f[:4] == "XXX_" {
+			return true
+		}
+		if f == "Ordinal" || (typ == "TxHeader" && f == "SerializedSize") || f == "state" || f == "sizeCache" || f == "unknownFields" {
+			return true
+		}
+		return false
+	}
+	for _, tn := range entryTypes {
+		f := c.Func("protocol/bc", "(*"+tn+").writeForHash")
+		if f == nil || bcp == nil {
+			continue
+		}
+		got := map[string]bool{}
+		for _, s := range callsTo(f, false, "protocol/bc.mustWriteForHash") {
+			arg := s.Common().Args[1]
+			mentions(arg, func(v ssa.Value) bool {
+				if ty, fld, ok := fieldOf(v); ok && ty == "protocol/bc."+tn {
+					got[fld] = true
+				}
+				return false
+			}, 4, nil)
+		}
+		want := map[string]bool{}
+		if o := bcp.Types.Scope().Lookup(tn); o != nil {
+			if st, ok := o.Type().Underlying().(interface {
+				NumFields() int
+			}); ok {
+				_ = st
+			}
+		}
+		if tnm := bcp.Types.Scope().Lookup(tn); tnm != nil {
+			if st, ok := tnm.Type().Underlying().(*typesStruct); ok {
+				for i := 0; i < st.NumFields(); i++ {
+					if n := st.Field(i).Name(); !notHashed(tn, n) {
+						want[n] = true
+					}
+				}
+			}
+		}
+		missing, extra := []string{}, []string{}
+		for k := range want {
+			if !got[k] {
+				missing = append(missing, k)
+			}
+		}
+		for k := range got {
+			if !want[k] {
+				extra = append(extra, k)
+			}
+		}
+		sortStrings(missing)
+		sortStrings(extra)
+		c.Require("fieldcover", "bc."+tn+".writeForHash covers exactly the body fields", len(missing) == 0 && len(extra) == 0 && len(want) > 0, "hashed %v; missing %v; must-not-hash %v", keys(got), missing, extra)
+	}
+	// (b) constructors store every parameter
+	for _, cn := range []string{"NewTxHeader", "NewMux", "NewSpend", "NewVetoInput", "NewIssuance", "NewCoinbase", "NewOriginalOutput", "NewVoteOutput", "NewRetirement", "NewBlockHeader"} {
+		f := c.Func("protocol/bc", cn)
+		if f == nil {
+			continue
+		}
+		dropped := []string{}
+		for _, p := range f.Params {
+			used := false
+			for _, b := range f.Blocks {
+				for _, in := range b.Instrs {
+					if st, ok := in.(*ssa.Store); ok {
+						if _, _, isF := fieldOf(st.Addr); isF && mentions(st.Val, func(v ssa.Value) bool { return v == ssa.Value(p) }, 3, nil) {
+							used = true
+						}
+					}
+				}
+			}
+			if !used {
+				dropped = append(dropped, p.Name())
+			}
+		}
+		c.Require("fieldinit", "bc."+cn+" stores every parameter into the entry", len(dropped) == 0, "parameters not stored: %v", dropped)
+	}
+	// (c) wire field → hashed content
+	type req struct {
+		fn     string
+		fields [][2]string
+		calls  []string
+	}
+	sc := "protocol/bc/types.SpendCommitment"
+	reqs := []req{
+		{"(*mapHelper).mapSpendInput", [][2]string{{sc, "VMVersion"}, {sc, "ControlProgram"}, {sc, "SourceID"}, {sc, "AssetAmount"}, {sc, "SourcePosition"}, {sc, "StateData"}}, nil},
+		{"(*mapHelper).mapVetoInput", [][2]string{{sc, "VMVersion"}, {sc, "ControlProgram"}, {sc, "SourceID"}, {sc, "AssetAmount"}, {sc, "SourcePosition"}, {sc, "StateData"}, {"protocol/bc/types.VetoInput", "Vote"}}, nil},
+		{"(*mapHelper).mapIssuanceInput", [][2]string{{"protocol/bc/types.IssuanceInput", "Amount"}}, []string{"(*protocol/bc/types.IssuanceInput).NonceHash", "(*protocol/bc/types.IssuanceInput).AssetID"}},
+		{"(*mapHelper).mapCoinbaseInput", [][2]string{{"protocol/bc/types.CoinbaseInput", "Arbitrary"}}, nil},
+		{"(*mapHelper).mapOutputs", [][2]string{{"protocol/bc/types.OutputCommitment", "AssetAmount"}, {"protocol/bc/types.OutputCommitment", "VMVersion"}, {"protocol/bc/types.OutputCommitment", "ControlProgram"}, {"protocol/bc/types.OutputCommitment", "StateData"}, {"protocol/bc/types.VoteOutput", "Vote"}}, nil},
+		{"(*mapHelper).generateTx", [][2]string{{"protocol/bc/types.TxData", "Version"}, {"protocol/bc/types.TxData", "TimeRange"}, {"protocol/bc/types.mapHelper", "resultIDs"}}, nil},
+		{"mapBlockHeader", [][2]string{{tBH, "Version"}, {tBH, "Height"}, {tBH, "PreviousBlockHash"}, {tBH, "Timestamp"}, {"", "TransactionsMerkleRoot"}}, nil},
+	}
+	for _, r := range reqs {
+		f := c.Func(pTypes, r.fn)
+		if f == nil {
+			continue
+		}
+		sinks, wit := hashedSinks(f)
+		for _, fl := range r.fields {
+			ok := false
+			for _, s := range sinks {
+				if mentions(s, readsField(fl[0], fl[1]), 7, nil) {
+					ok = true
+				}
+			}
+			c.Require("fieldflow", fname(f)+": wire field "+fl[1]+" reaches hashed entry content", ok, "%d hashed sinks examined", len(sinks))
+		}
+		for _, k := range r.calls {
+			ok := false
+			for _, s := range sinks {
+				if mentions(s, callsKey(k), 7, nil) {
+					ok = true
+				}
+			}
+			c.Require("fieldflow", fname(f)+": "+k+" reaches hashed entry content", ok, "%d hashed sinks examined", len(sinks))
+		}
+		// witness data never reaches hashed content
+		bad := false
+		for _, s := range sinks {
+			if mentions(s, readsField("", "Arguments"), 7, nil) || mentions(s, readsField(tBH, "BlockWitness"), 7, nil) || mentions(s, readsField(tBH, "SupLinks"), 7, nil) {
+				bad = true
+			}
+		}
+		c.Require("fieldflow", fname(f)+": witness data (arguments, block witness, sup links) never reaches hashed content", !bad, "%d hashed sinks, %d witness sinks", len(sinks), len(wit))
+	}
+	// input order / output order
+	for _, fn := range []string{"(*mapHelper).mapSpendInput", "(*mapHelper).mapVetoInput", "(*mapHelper).mapIssuanceInput", "(*mapHelper).mapCoinbaseInput"} {
+		f := c.Func(pTypes, fn)
+		if f == nil {
+			continue
+		}
+		// muxSources[i] and inputIDs[i] are indexed by the parameter i
+		n := 0
+		for _, b := range f.Blocks {
+			for _, in := range b.Instrs {
+				if ia, ok := in.(*ssa.IndexAddr); ok && (mentions(ia.X, readsField("protocol/bc/types.mapHelper", "muxSources"), 2, nil) || mentions(ia.X, readsField("protocol/bc/types.mapHelper", "inputIDs"), 2, nil)) {
+					if p, ok := ia.Index.(*ssa.Parameter); ok && p == f.Params[1] {
+						n++
+					} else {
+						n = -100
+					}
+				}
+			}
+		}
+		c.Require("fieldflow", fname(f)+": input position i indexes muxSources and inputIDs", n >= 2, "%d indexed stores", n)
+	}
+	mo := c.Func(pTypes, "(*mapHelper).mapOutputs")
+	if mo != nil {
+		// Position: uint64(i) from the range index; resultIDs appended in loop order
+		okp := false
+		for _, b := range mo.Blocks {
+			for _, in := range b.Instrs {
+				if st, ok := in.(*ssa.Store); ok {
+					if ty, fld, ok := fieldOf(st.Addr); ok && ty == "protocol/bc.ValueSource" && fld == "Position" {
+						okp = mentions(st.Val, func(v ssa.Value) bool { _, ok := v.(*ssa.Phi); return ok }, 3, nil)
+					}
+				}
+			}
+		}
+		c.Require("fieldflow", fname(mo)+": output position is the range index", okp, "ValueSource.Position = uint64(i)")
+	}
+	tm := c.Func(pTypes, "TxMerkleRoot")
+	if tm != nil {
+		ok := mentions2(tm, readsField("protocol/bc.Tx", "ID"))
+		c.Require("fieldflow", fname(tm)+": merkle leaves are the transaction ids in slice order", ok, "reads Tx.ID in a range loop")
+	}
+	eid := c.Func("protocol/bc", "EntryID")
+	if eid != nil {
+		ok := len(callsTo(eid, false, "(protocol/bc.Entry).writeForHash")) == 1 && len(callsTo(eid, false, "(protocol/bc.Entry).typ")) == 1
+		c.Require("callseq", fname(eid)+": id = H(type tag, H(body))", ok, "typ() and writeForHash() both feed the hasher")
+	}
+	c.Floor("fieldcover", 10)
+	c.Floor("fieldinit", 10)
+	c.Floor("fieldflow", 30)
+}
+
+func keys(m map[string]bool) []string {
+	var out []string
+	for k := range m {
+		out = append(out, k)
+	}
+	sortStrings(out)
+	return out
+}
